@@ -15,24 +15,20 @@ pub fn check_table_generic_type_compact(
     match compact_type {
         LuaType::Table | LuaType::Global => return Ok(()),
         LuaType::TableGeneric(compact_generic_param) => {
-            if source_generic_param.len() == 2 && compact_generic_param.len() == 2 {
-                let source_key = &source_generic_param[0];
-                let source_value = &source_generic_param[1];
-                let compact_key = &compact_generic_param[0];
-                let compact_value = &compact_generic_param[1];
-
-                check_general_type_compact(
-                    context,
-                    source_key,
-                    compact_key,
-                    check_guard.next_level()?,
-                )?;
-                check_general_type_compact(
-                    context,
-                    source_value,
-                    compact_value,
-                    check_guard.next_level()?,
-                )?;
+            // `table<K, V>` is the usual shape, but the annotation grammar also lets through other
+            // arities (`table<X>`); equal arities are compared parameter by parameter so that every
+            // such type is at least assignable to itself.
+            if source_generic_param.len() == compact_generic_param.len() {
+                for (source_param, compact_param) in
+                    source_generic_param.iter().zip(compact_generic_param.iter())
+                {
+                    check_general_type_compact(
+                        context,
+                        source_param,
+                        compact_param,
+                        check_guard.next_level()?,
+                    )?;
+                }
                 return Ok(());
             }
         }
